@@ -200,6 +200,8 @@ class Engine(ExprMixin, CallMixin, BuiltinMixin, VerifyMixin):
             for it in v.items:
                 r = core.lappend(r, self.adapt(it, ty.elem))
             return r
+        if isinstance(v.ty, Map) and isinstance(ty, Set) and v.ty.k == ty.elem:
+            return core.mdom(v)         # a mapping used as the set of its keys
         if v.ty is STATIC and isinstance(ty, Tup):
             return mk_tuple([self.adapt(it, e) for it, e in zip(v.items, ty.elems)])
         if v.ty is STATIC and isinstance(ty, Set):
